@@ -75,12 +75,13 @@ type slotSet uint64
 const globalSlot = 63
 
 type site struct {
-	fn    *ssa.Function
-	pos   token.Pos
-	desc  string // field description
-	name  string // "pkg.Func: desc" (made unique later)
-	ord   int    // order inside the function
-	chain string
+	fn     *ssa.Function
+	pos    token.Pos
+	desc   string // field description
+	name   string // "pkg.Func: desc" (made unique later)
+	ord    int    // order inside the function
+	chain  string
+	direct bool // the def chain ends in a non-receiver parameter or a lexer view
 }
 
 type leaf struct {
@@ -403,7 +404,8 @@ func (a *analyzer) analyze(c *ctxInfo) *summary {
 		if s, ok := a.sites[k]; ok {
 			return s
 		}
-		s := &site{fn: fn, pos: in.Pos(), desc: desc, ord: ord, chain: a.defChain(val)}
+		s := &site{fn: fn, pos: in.Pos(), desc: desc, ord: ord}
+		s.chain, s.direct = a.defChain(val)
 		if s.pos == token.NoPos {
 			s.pos = nearestPos(val)
 		}
@@ -931,8 +933,9 @@ func nearestPos(v ssa.Value) token.Pos {
 }
 
 // defChain prints the backward definition chain of a stored value (evidence).
-func (a *analyzer) defChain(v ssa.Value) string {
+func (a *analyzer) defChain(v ssa.Value) (string, bool) {
 	var parts []string
+	direct := false
 	seen := map[ssa.Value]bool{}
 	for d := 0; v != nil && d < 12 && !seen[v]; d++ {
 		seen[v] = true
@@ -946,6 +949,9 @@ func (a *analyzer) defChain(v ssa.Value) string {
 		switch x := v.(type) {
 		case *ssa.Parameter:
 			txt = "parameter " + x.Name()
+			if f := x.Parent(); f != nil && (f.Signature.Recv() == nil || len(f.Params) == 0 || f.Params[0] != x) {
+				direct = true
+			}
 		case *ssa.Const:
 			txt = "const " + x.String()
 		case *ssa.Slice:
@@ -991,6 +997,10 @@ func (a *analyzer) defChain(v ssa.Value) string {
 				if len(x.Call.Args) > 0 {
 					next = x.Call.Args[0]
 				}
+				switch fnName(f) {
+				case "uio.(*Lexer).Consume", "uio.(*Buffer).Data", "uio.(*Buffer).ReadN":
+					direct = true
+				}
 			} else {
 				txt = "dynamic call"
 			}
@@ -1000,7 +1010,7 @@ func (a *analyzer) defChain(v ssa.Value) string {
 		parts = append(parts, txt+pos)
 		v = next
 	}
-	return strings.Join(parts, " <- ")
+	return strings.Join(parts, " <- "), direct
 }
 
 func shortFile(f string) string {
@@ -1091,10 +1101,11 @@ type provRow struct {
 }
 
 type viewEvidence struct {
-	Leaf  string   `json:"leaf"`
-	Pos   string   `json:"pos"`
-	Chain string   `json:"def_chain"`
-	Roots []string `json:"via_roots"`
+	Leaf   string   `json:"leaf"`
+	Pos    string   `json:"pos"`
+	Chain  string   `json:"def_chain"`
+	Direct bool     `json:"direct"` // false: flagged only because its container already aliases the input
+	Roots  []string `json:"via_roots"`
 }
 
 type encRow struct {
@@ -1347,7 +1358,7 @@ func extractProvenance(initial []*packages.Package, fset *token.FileSet) {
 			sort.Strings(g.roots)
 			g.roots = dedupStr(g.roots)
 			pp := fset.Position(s.pos)
-			po.Views = append(po.Views, viewEvidence{Leaf: s.name, Pos: fmt.Sprintf("%s:%d", shortFile(pp.Filename), pp.Line), Chain: s.chain, Roots: g.roots})
+			po.Views = append(po.Views, viewEvidence{Leaf: s.name, Pos: fmt.Sprintf("%s:%d", shortFile(pp.Filename), pp.Line), Chain: s.chain, Direct: s.direct, Roots: g.roots})
 		}
 	}
 	for u := range unresolved {
@@ -1357,7 +1368,12 @@ func extractProvenance(initial []*packages.Package, fset *token.FileSet) {
 	}
 	sort.Strings(po.Unresolved)
 	sort.Slice(po.Leaves, func(i, j int) bool { return po.Leaves[i].Name < po.Leaves[j].Name })
-	sort.Slice(po.Views, func(i, j int) bool { return po.Views[i].Leaf < po.Views[j].Leaf })
+	sort.Slice(po.Views, func(i, j int) bool {
+		if po.Views[i].Direct != po.Views[j].Direct {
+			return po.Views[i].Direct
+		}
+		return po.Views[i].Leaf < po.Views[j].Leaf
+	})
 
 	// ---- encoders
 	topLevel := map[string]bool{"dhcpv4.(*DHCPv4).ToBytes": true, "dhcpv4.Options.ToBytes": true,
